@@ -5,6 +5,8 @@ request : trace <H|N|S|G> <nfiles> [c<k>|-] <layer>,<layer>,…
           op    = k (file untouched) | d (whiteout) | w<digits> (file rewritten with these packages, in this order;
                   a digit d in 1..8 is the package p<(d-1)%4+1> at version (d-1)/4+1: ids d and d+4 share their name)
                 | s<digits> (location replaced by a symlink to a list with these packages)
+                | a<n> / r<n> (the directory n levels above the file — the files sit up to three directories deep
+                  — is deleted by a whiteout / replaced by a regular file; every file below goes)
           c<k>  = the context is cancelled once the trace has made k re-extractions (k ≥ 1); - or absent = never
           history mode: H = one history entry per layer (CreatedBy "cmd<i>"), N = no history, S = last entry dropped,
           G = one extra non-empty entry appended
@@ -19,28 +21,66 @@ reply   : n=<chain layers> pk=<tok>,<tok>…  spec=<tok>,…  al=<ord|e>:<hex cm
 import Scalibr.Base.Wire
 import Scalibr.Base.Sort
 import Scalibr.Spec.Trace
+import Scalibr.Model.TraceSize
 open Scalibr Scalibr.Trace Scalibr.Wire
 
-def parseOp (s : String) : Option Op :=
-  if s = "k" then some .keep
-  else if s = "d" then some .delete
+/-- an op as written in the case: an op on the file itself, or `a<n>` / `r<n>`: the directory `n` levels
+above the file is deleted (whiteout) / replaced by a regular file -/
+inductive ROp | own (o : Op) | anc (n : Nat)
+
+def parseOp (s : String) : Option ROp :=
+  if s = "k" then some (.own .keep)
+  else if s = "d" then some (.own .delete)
   else match s.toList with
-    | 'w' :: ds => (ds.mapM fun (c : Char) => if c.isDigit then some (c.toNat - 48) else none).map Op.write
-    | 's' :: ds => (ds.mapM fun (c : Char) => if c.isDigit then some (c.toNat - 48) else none).map Op.link
+    | 'w' :: ds => (ds.mapM fun (c : Char) => if c.isDigit then some (c.toNat - 48) else none).map (ROp.own ∘ Op.write)
+    | 's' :: ds => (ds.mapM fun (c : Char) => if c.isDigit then some (c.toNat - 48) else none).map (ROp.own ∘ Op.link)
+    | ['a', d] => if '1' ≤ d ∧ d ≤ '9' then some (.anc (d.toNat - 48)) else none
+    | ['r', d] => if '1' ≤ d ∧ d ≤ '9' then some (.anc (d.toNat - 48)) else none
     | _ => none
+
+/-- the directories of the harness' files: 0 = var/lib/a/pkgs.list, 1 = usr/share/b/pkgs.list, 2 = opt/pkgs.list
+(no two files share an ancestor directory: see the generator) -/
+def fileDir (f : Nat) : List String :=
+  if f = 0 then ["var", "lib", "a"] else if f = 1 then ["usr", "share", "b"] else ["opt"]
+
+/-- the directory `n` levels above file `f` (n = 1: its own directory) -/
+def ancestorDir (f n : Nat) : Option (List String) :=
+  let d := fileDir f
+  if 1 ≤ n ∧ n ≤ d.length then some (d.take (d.length - (n - 1))) else none
+
+/-- What a layer does to each file, as the OCI rule reads the tar: a deleted or replaced directory takes
+every file below it along. `none`: the case is not well formed (no such ancestor, or a file re-created in
+the very layer that deletes a directory above it — the result would depend on the tar order, C04's matter). -/
+def effective (ops : List ROp) : Option (List Op) :=
+  let gone : List (List String) := (List.range ops.length).filterMap fun g =>
+    match ops[g]? with
+    | some (ROp.anc n) => ancestorDir g n
+    | _ => none
+  let wf := (List.range ops.length).all fun g =>
+    match ops[g]? with
+    | some (ROp.anc n) => (ancestorDir g n).isSome
+    | _ => true
+  if !wf then none else
+  (List.range ops.length).mapM fun f =>
+    let hit := gone.any fun d => d.isPrefixOf (fileDir f)
+    match ops[f]? with
+    | some (ROp.own o) =>
+      if hit then (match o with | Op.keep => some Op.delete | Op.delete => some Op.delete | _ => none) else some o
+    | some (ROp.anc _) => some Op.delete
+    | none => none
 
 /-- a layer: none = empty history entry, some ops = one op per file -/
 def parseLayer (nf : Nat) (s : String) : Option (Option (List Op)) :=
   if s = "E" then some none
   else match s.splitOn "/" with
-    | "L" :: ops => if ops.length = nf then (ops.mapM parseOp).map some else none
+    | "L" :: ops => if ops.length = nf then ((ops.mapM parseOp).bind effective).map some else none
     | _ => none
 
 def sortStr (xs : List String) : List String := isort (fun a b => decide (a < b)) xs
 
 /-- `sortResults` orders the inventory by name, then by location; the harness' files are
-0 = var/lib/a/pkgs.list, 1 = opt/pkgs.list, 2 = pkgs.list, so by path: 1 < 2 < 0 -/
-def fileRank (f : Nat) : Nat := if f = 0 then 2 else if f = 1 then 0 else 1
+0 = var/lib/a/pkgs.list, 1 = usr/share/b/pkgs.list, 2 = opt/pkgs.list, so by path: 2 < 1 < 0 -/
+def fileRank (f : Nat) : Nat := if f = 0 then 2 else if f = 1 then 1 else 0
 
 /-- a package id is a (name, version) pair with SHARED names: id d and id d+4 are name p<(d-1)%4+1> at
 versions 1 and 2 (purls that differ only in the version). The model's `Pkg` equality is purl equality. -/
@@ -106,4 +146,29 @@ def handle (line : String) : String :=
     | _, _ => "bad-op"
   | _ => "bad-op"
 
-def main : IO Unit := serve handle
+/-- the `sizes` stream (verdict: C10): `sz <limit> <maxinodes> <op>,…` with op = E | k | d | w<bytes>.
+reply: sizes=<bytes handed to each Extract call, in call order> bound=<limit | -> : the model's prediction and
+the specification's bound (every size handed to an extractor is at most the limit, when one is set) -/
+def handleSizes (limit : Nat) (ops : String) : String :=
+  let parse (s : String) : Option TraceSize.SOp :=
+    if s = "E" || s = "k" then some .keep
+    else if s = "d" then some .delete
+    else match s.toList with
+      | 'w' :: ds => (String.ofList ds).toNat?.map TraceSize.SOp.write
+      | _ => none
+  match (listOf ops ",").mapM parse with
+  | none => "bad-op"
+  | some h =>
+    if h.isEmpty then "scanerr" else
+    let sizes := TraceSize.handed limit h
+    s!"sizes={joinWith "." (sizes.map toString)} bound={if limit = 0 then "-" else toString limit}"
+
+def handleAll (line : String) : String :=
+  match line.splitOn " " with
+  | ["sz", limit, inodes, ops] =>
+    (match limit.toNat?, inodes.toNat? with
+     | some limit, some _ => handleSizes limit ops
+     | _, _ => "bad-op")
+  | _ => handle line
+
+def main : IO Unit := serve handleAll
